@@ -2346,6 +2346,13 @@ fn compile_quoted_string_ex(s: &str) -> String {
     v
 }
 
+// A macro name becomes part of a regular expression: it has to be an identifier
+fn is_macro_name(s: &str) -> bool {
+    let mut chars = s.chars();
+    chars.next().is_some_and(|c| c.is_ascii_alphabetic() || c == '_')
+        && chars.all(|c| c.is_ascii_alphanumeric() || c == '_')
+}
+
 // The including file and line of an entry of the line table
 fn included_in_of(
     entry: &(std::rc::Rc<String>, u32, Option<(std::rc::Rc<String>, u32)>),
@@ -2463,6 +2470,11 @@ pub fn compile<I: BufRead, O: Write>(
         let mut s = i.splitn(2, '=');
         let def = s.next().unwrap();
         let value = s.next().unwrap_or("1");
+        if !is_macro_name(def) {
+            return Err(Error::Configuration {
+                error: format!("Invalid macro name in -D option: {}", def),
+            });
+        }
         context.define(def, value);
     }
 
